@@ -243,7 +243,9 @@ pub fn print_struct(prog: &Program, n: usize, out: &mut String) {
         out.push_str(&format!("fn cdef_{n}() -> R{n} {{ {} }}\n", synth(CONTAINER_FN_BASE)));
     }
     if s.from_ident {
-        out.push_str(&format!("impl From<syn::Ident> for R{n} {{ fn from(_: syn::Ident) -> Self {{ {} }} }}\n", synth(FROM_IDENT_BASE)));
+        // a field's identifier is optional (tuple fields have none)
+        let arg = if s.tr8 == Trait::FromField { "Option<syn::Ident>" } else { "syn::Ident" };
+        out.push_str(&format!("impl From<{arg}> for R{n} {{ fn from(_: {arg}) -> Self {{ {} }} }}\n", synth(FROM_IDENT_BASE)));
     }
     if s.from_word {
         out.push_str(&format!("fn fw_{n}() -> darling::Result<R{n}> {{ Ok({}) }}\n", synth(9000)));
